@@ -5,10 +5,18 @@ int ldata_1[4] = { 104 };
 const void *addr_ldata_1(void){ return ldata_1; } int read_ldata_1(void){ return ldata_1[0]; }
 extern int ldata_1[]; const void *l1_addr_ldata_1(void){ return ldata_1; } int l1_read_ldata_1(void){ return ldata_1[0]; }
 extern int efunc_2(void); void *l1_addr_efunc_2(void){ return (void*)efunc_2; } int l1_call_efunc_2(void){ return efunc_2(); }
+#ifdef EIFUNC_FROM_LIB
 extern int eifunc_3(void); void *l1_addr_eifunc_3(void){ return (void*)eifunc_3; } int l1_call_eifunc_3(void){ return eifunc_3(); }
+#endif
 const int ldata_ro_4[4] = { 100 };
 const void *addr_ldata_ro_4(void){ return ldata_ro_4; } int read_ldata_ro_4(void){ return ldata_ro_4[0]; }
 extern const int ldata_ro_4[]; const void *l1_addr_ldata_ro_4(void){ return ldata_ro_4; } int l1_read_ldata_ro_4(void){ return ldata_ro_4[0]; }
+#ifdef EIFUNC_FROM_LIB
 extern int eifunc_5(void); void *l1_addr_eifunc_5(void){ return (void*)eifunc_5; } int l1_call_eifunc_5(void){ return eifunc_5(); }
+#endif
 int real_lalias_6 = 196; extern int lalias_6 __attribute__((weak, alias("real_lalias_6")));
 void *addr_lalias_6(void){ return &real_lalias_6; } int read_lalias_6(void){ return real_lalias_6; } void write_lalias_6(int v){ real_lalias_6 = v; }
+int lalias_sw_7 = 183; extern __typeof(lalias_sw_7) w_lalias_sw_7 __attribute__((weak, alias("lalias_sw_7")));
+void *addr_lalias_sw_7(void){ return (void*)&w_lalias_sw_7; } int read_lalias_sw_7(void){ return w_lalias_sw_7; } void write_lalias_sw_7(int v){ w_lalias_sw_7 = v; } void *waddr_lalias_sw_7(void){ return (void*)&w_lalias_sw_7; }
+int lalias_st_8 = 55; extern __typeof(lalias_st_8) t_lalias_st_8 __attribute__((alias("lalias_st_8")));
+void *addr_lalias_st_8(void){ return (void*)&t_lalias_st_8; } int read_lalias_st_8(void){ return t_lalias_st_8; } void write_lalias_st_8(int v){ t_lalias_st_8 = v; } void *waddr_lalias_st_8(void){ return (void*)&t_lalias_st_8; }
